@@ -290,7 +290,7 @@ def run_property(prop, cfg, tier, repo, scratch, seed):
     jobs = int(os.environ.get('VERIF_KANI_JOBS', '10'))
     # the required (quick) harnesses are started first; a thorough run has an overall budget after which the
     # harnesses not yet finished are reported as not decided (optional ones only degrade coverage)
-    budget = int(os.environ.get('VERIF_KANI_BUDGET_S', '5400' if tier == 'thorough' else '2700'))
+    budget = int(os.environ.get('VERIF_KANI_BUDGET_S', '3600' if tier == 'thorough' else '2700'))
     out = run_harnesses(crate, names, jobs=jobs, harness_timeout=cfg.get('kani_timeout', '20m' if tier == 'thorough' else '12m'), overall_timeout=budget)
     cov['cmds'].append(out['cmd'])
     if out['compile_error']:
